@@ -25,10 +25,27 @@ model (coq/Text.v, coq/Dimacs.v):
             realistic sizes for every registered family (harness/fam_c0[123].py): the
             bytes written must equal print_dimacs of the library object's header,
             variable count and clauses.
+Run first, as a corpus (notes/LARGE_STREAMS.md):
+ huge       outputs of more than 8 and 16 MiB (padded to one byte past the boundary), more
+            than 65536 / 131072 clauses or comment lines, lines of more than 131072
+            characters, through a StringIO, a file name, an open file and the standard
+            output, and `cnfgen dimacs FILE` on a 16 MiB file.  The character-level model
+            is too slow there: the statement itself is checked on the text (read back =
+            written formula; one true problem line; every other line a comment or a clause).
+ thresholds literal values, clause widths, clause / field / name counts and lengths at
+            15..1025, 4096..131073 and 2^31..10^19, writer and reader, exact comparison.
+ shapes     kinds of destination (write-only object, descriptor-named and anonymous files,
+            bytes paths, tiny buffers), file names that merely END in the letters of an
+            extension (to_file(name) and `cnfgen -o name`, format as documented by
+            guess_output_format), names outside ASCII written in-process and by a process
+            in the C locale with UTF-8 mode off.
+ history    one formula object edited through its public API between writes, written to
+            the same file name again and again; the reader called on texts it saw before.
 
 Any exception class other than ValueError, and any accepted text whose formula is
 not the one the (proved sound) model reads, is a failing input for the property."""
 import io
+import json
 import os
 import re
 import subprocess
@@ -124,6 +141,11 @@ def impl_write(F, header, names, to_file):
 
 def latin1(s):
     return all(ord(ch) < 256 for ch in s)
+
+
+def clip(s, k=300):
+    """long fields are shown by their ends and their length in samples and replay files"""
+    return s if len(s) <= k else '%s ... (%d characters) ... %s' % (s[:k // 2], len(s), s[-k // 4:])
 
 
 def header_for_model(F):
@@ -396,10 +418,15 @@ def opt(x):
     return None if x is None else [Sym('some'), x]
 
 
-def run_formulas(ctx, cnfgen, quick):
+def run_formulas(ctx, cnfgen, quick, formulas=None, stream='formulas'):
+    """formulas: [(label, class, thunk)] or [(label, class, thunk, options)] with options a list of
+    (export_header, export_varnames, to_file) triples; None = the collection of build_formulas, all combinations"""
     CNF = cnfgen.CNF
     cases = []
-    for label, cls, thunk in build_formulas(ctx, cnfgen, quick):
+    corpus = formulas is not None
+    for item in (formulas if corpus else build_formulas(ctx, cnfgen, quick)):
+        label, cls, thunk = item[:3]
+        only = item[3] if len(item) > 3 else None
         try:
             F = thunk()
         except Exception as e:  # the generator itself failed: not this property's business, but recorded
@@ -408,7 +435,8 @@ def run_formulas(ctx, cnfgen, quick):
             continue
         n = F.number_of_variables()
         clauses = [list(c) for c in F]
-        labels = list(F.all_variable_labels()) if n <= 10 ** 6 else None   # 10**30 variables cannot be listed
+        want_names = only is None or any(o[1] for o in only)
+        labels = list(F.all_variable_labels()) if (n <= 10 ** 6 and want_names) else None   # 10**30 variables cannot be listed
         ctx.tally('formula class', cls)
         ctx.tally('clauses', '0' if not clauses else '1-9' if len(clauses) < 10 else '10-999' if len(clauses) < 1000 else '1000+')
         ctx.tally('has empty clause', any(len(c) == 0 for c in clauses))
@@ -422,20 +450,42 @@ def run_formulas(ctx, cnfgen, quick):
                     ctx.tally('skipped', 'names outside latin-1')
                     continue
                 for to_file in ((False, True) if cls != 'large' or (header and names) else (False,)):
+                    if only is not None and (header, names, to_file) not in only:
+                        continue
                     cases.append(dict(label=label, cls=cls, F=F, n=n, clauses=clauses, labels=labels,
                                       header=header, names=names, to_file=to_file))
+    judge_cases(ctx, cnfgen, stream, cases, corpus)
+    if not quick and not corpus:
+        php_100_40(ctx, cnfgen)
+
+
+def header_items(F):
+    return [(str(k), str(v)) for k, v in F.header.items()]
+
+
+def judge_cases(ctx, cnfgen, stream, cases, corpus=True):
+    """cases: dicts with label, cls, F, n, clauses, labels, header, names, to_file.  A case that already carries 'text'
+    (and 'hdr_items', the header at the time of writing) was written by the caller at that moment -- the object may have
+    changed since (history stream); else the formula is written here."""
+    CNF = cnfgen.CNF
     # phase 1: write with the implementation, print with the model
     reqs = []
     for c in cases:
         F = c['F']
-        try:
-            c['text'] = impl_write(F, c['header'], c['names'], c['to_file'])
-            c['wexc'] = None
-        except Exception as e:  # noqa
-            c['text'] = None
-            c['wexc'] = [type(e).__name__, str(e)[:120]]
-        margs = (opt(header_for_model(F) if c['header'] else None), opt(c['labels'] if c['names'] else None), c['n'], c['clauses'])
-        c['broken'] = has_break(F, c['header'], c['names'], c['labels'])
+        if 'text' not in c:
+            c['hdr_items'] = header_items(F)
+            try:
+                c['text'] = impl_write(F, c['header'], c['names'], c['to_file'])
+                c['wexc'] = None
+            except Exception as e:  # noqa
+                c['text'] = None
+                c['wexc'] = [type(e).__name__, str(e)[:120]]
+        c.setdefault('via', 'file' if c['to_file'] else 'StringIO')
+        hdr = [[''.join(ch if ord(ch) < 256 else '\xff' for ch in k), ''.join(ch if ord(ch) < 256 else '\xff' for ch in v)]
+               for k, v in c['hdr_items']]
+        margs = (opt(hdr if c['header'] else None), opt(c['labels'] if c['names'] else None), c['n'], c['clauses'])
+        c['broken'] = bool((c['header'] and any(b in k or b in v for k, v in c['hdr_items'] for b in BREAKS)) or
+                           (c['names'] and any(b in lab for lab in c['labels'] for b in BREAKS)))
         reqs.append(cmd('print_dimacs', *margs))
         if c['broken']:
             reqs.append(cmd('print_dimacs_as_found', *margs))
@@ -452,13 +502,17 @@ def run_formulas(ctx, cnfgen, quick):
             reqs.append(cmd('parse_dimacs', True, c['text']))
     parses = iter(ctx.model.batch(reqs))
     for c, mp in zip(cases, prints):
-        descr = dict(formula=c['label'], n=c['n'], clauses=c['clauses'] if len(c['clauses']) <= 30 else '%d clauses' % len(c['clauses']),
-                     export_header=c['header'], export_varnames=c['names'], via='file' if c['to_file'] else 'StringIO',
-                     header=[[str(k), str(v)] for k, v in c['F'].header.items()] if c['header'] else None,
-                     names=c['labels'][:20] if c['names'] else None)
-        key = (c['label'], c['header'], c['names'], c['to_file'])
-        ctx.count('formulas', key, nontrivial=len(c['clauses']) > 0, sample=dict(descr, clauses='...'))
-        ctx.tally('options', 'header=%s names=%s' % (c['header'], c['names']))
+        descr = dict(formula=c['label'], n=c['n'],
+                     clauses=c['clauses'] if (len(c['clauses']) <= 30 and sum(map(len, c['clauses'])) <= 300) else '%d clauses' % len(c['clauses']),
+                     export_header=c['header'], export_varnames=c['names'], via=c['via'],
+                     header=[[clip(k), clip(v)] for k, v in c['hdr_items'][:40]] if c['header'] else None,
+                     names=[clip(x) for x in c['labels'][:20]] if c['names'] else None)
+        if c.get('history'):
+            descr['history'] = c['history']
+        key = (c['label'], c['header'], c['names'], c['via'])
+        ctx.count(stream, key, nontrivial=len(c['clauses']) > 0, sample=dict(descr, clauses='...'))
+        ctx.tally(stream + ' options' if corpus else 'options', 'header=%s names=%s via=%s' % (c['header'], c['names'], descr['via']) if corpus
+                  else 'header=%s names=%s' % (c['header'], c['names']))
         broken = c['broken']
         ctx.tally('line break in header/name', broken)
         if c['text'] is None:
@@ -522,16 +576,19 @@ def run_formulas(ctx, cnfgen, quick):
                                   dict(input=descr, universal_newlines=bool(u), implementation=g if g != want else 'same formula', model=m),
                                   False, site='parse_dimacs', cls='verdict-on-written')
                     break
-    if not quick:
-        F = cnfgen.PigeonholePrinciple(100, 40)
-        text = F.to_dimacs()
-        cl = [list(c) for c in F]
-        r = ctx.model.batch([cmd('print_dimacs', None, None, F.number_of_variables(), cl), cmd('parse_dimacs', False, text)])
-        ctx.count('formulas', ('php 100 40', False, False, False), True)
-        ctx.tally('formula class', 'huge')
-        if r[0] != text or r[1] != ['ok', F.number_of_variables(), cl] or impl_read(CNF, text, False) != r[1]:
-            ctx.violation('correspondence', 'php 100 40: text or read-back differs from the model',
-                          dict(input=dict(formula='php 100 40')), False, site='to_dimacs_file', cls='text-differs')
+
+
+def php_100_40(ctx, cnfgen):
+    CNF = cnfgen.CNF
+    F = cnfgen.PigeonholePrinciple(100, 40)
+    text = F.to_dimacs()
+    cl = [list(c) for c in F]
+    r = ctx.model.batch([cmd('print_dimacs', None, None, F.number_of_variables(), cl), cmd('parse_dimacs', False, text)])
+    ctx.count('formulas', ('php 100 40', False, False, False), True)
+    ctx.tally('formula class', 'huge')
+    if r[0] != text or r[1] != ['ok', F.number_of_variables(), cl] or impl_read(CNF, text, False) != r[1]:
+        ctx.violation('correspondence', 'php 100 40: text or read-back differs from the model',
+                      dict(input=dict(formula='php 100 40')), False, site='to_dimacs_file', cls='text-differs')
 
 
 # --------------------------------------------------------------------------
@@ -737,7 +794,15 @@ def compare_texts(ctx, CNF, stream, items):
     for t, _ in items:
         reqs.append(cmd('parse_dimacs', False, t))
         reqs.append(cmd('parse_dimacs', True, t))
-    reps = ctx.model.batch(reqs)
+    reps = []
+    k = 0
+    while k < len(reqs):          # one driver call per 2 MB of text
+        j, size = k, 0
+        while j < len(reqs) and (j == k or size + len(reqs[j][2]) <= 2000000):
+            size += len(reqs[j][2])
+            j += 1
+        reps.extend(ctx.model.batch(reqs[k:j]))
+        k = j
     for i, (t, meta) in enumerate(items):
         nontrivial = any(l.strip() and not l.strip().startswith('c') for l in t.split('\n'))
         for u in (False, True):
@@ -775,6 +840,8 @@ def shrink(ctx, CNF, text, u, cls):
                 for j in range(len(toks)):
                     yield '\n'.join(ls[:i] + [' '.join(toks[:j] + toks[j + 1:])] + ls[i + 1:])
     cur = text
+    if len(text) > 20000 or len(text.split()) > 1500:
+        return text          # every candidate is sent to the model: not on the large texts of the thresholds stream
     for _ in range(60):
         cands = [c for c in dict.fromkeys(candidates(cur)) if c != cur and latin1(c)]
         if not cands:
@@ -799,8 +866,11 @@ def report_text_disagreement(ctx, CNF, stream, t, u, meta, g, m):
         gs, ms = impl_read(CNF, small, u), ctx.model.call(Sym('parse_dimacs'), u, small)
     except Exception:  # noqa
         small, gs, ms = t, g, m
-    rp = dict(input=dict(text=small, universal_newlines=u, original_text=t[:500], mutation=meta),
-              implementation=gs, model=ms)
+    def brief(v):
+        return v if len(str(v)) < 4000 else [v[0], v[1], '%d clauses' % len(v[2])] if v[0] == 'ok' else str(v)[:4000]
+    rp = dict(input=dict(text=small if len(small) <= 20000 else small[:10000] + '\n... (%d characters) ...\n' % len(small) + small[-2000:],
+                         universal_newlines=u, original_text=t[:500], mutation=meta),
+              implementation=brief(gs), model=brief(ms))
     if gs[0] == 'exc':
         ctx.violation('counterexample', 'the DIMACS reader failed with %s (not ValueError) on a text' % gs[1], rp, True,
                       site='parse_dimacs', cls=cls)
@@ -811,7 +881,7 @@ def report_text_disagreement(ctx, CNF, stream, t, u, meta, g, m):
                       dict(rp, theorem='parse_sound'), True, site='parse_dimacs', cls=cls)
     else:
         ctx.violation('correspondence', 'reader verdicts differ (implementation %r, model %r); Dimacs.v parse_dimacs no longer follows the code'
-                      % (gs[:3], ms[:3]), dict(rp, correspondence='Dimacs.v parse_dimacs <-> parsedimacs.parse_dimacs'), False,
+                      % (brief(gs)[:3], brief(ms)[:3]), dict(rp, correspondence='Dimacs.v parse_dimacs <-> parsedimacs.parse_dimacs'), False,
                       site='parse_dimacs', cls=cls)
 
 
@@ -1234,9 +1304,865 @@ def run_cli_write(ctx, cnfgen, quick):
              % (t_sel - t_start, t_run - t_sel, len(runs), time.time() - t_run))
 
 
+
+# --------------------------------------------------------------------------
+# thresholds: every size / index / width / count / length also at the values where a numeric threshold would bite
+# (notes/LARGE_STREAMS.md).  Exact comparison with the model: the outputs stay small at these sizes.
+# --------------------------------------------------------------------------
+THRESHOLDS = [15, 16, 17, 63, 64, 65, 127, 128, 129, 255, 256, 257, 258, 300, 1000, 1025]
+BLOCKS = [4095, 4096, 4097, 8191, 8192, 8193, 32768, 65535, 65536, 65537, 131071, 131072, 131073]
+BIGINTS = [2 ** 15, 2 ** 16, 10 ** 6, 2 ** 31 - 1, 2 ** 31, 2 ** 31 + 1, 2 ** 32, 2 ** 40, 2 ** 53 + 1, 2 ** 63 - 1, 2 ** 63, 2 ** 64, 10 ** 18,
+           10 ** 19]
+QUICK_BLOCKS = [4096, 8192, 8193, 65536, 65537, 131072]
+ALL_OPTS = [(h, nm, f) for h in (False, True) for nm in (False, True) for f in (False, True)]
+NO_NAMES = [(h, False, f) for h in (False, True) for f in (False, True)]
+BOTH_VIA = [(True, True, False), (True, True, True), (False, False, True)]
+
+
+def build_thresholds(ctx, cnfgen, quick):
+    """[(label, class, thunk, options)]"""
+    CNF = cnfgen.CNF
+    out = []
+
+    def add(label, cls, thunk, options):
+        out.append((label, cls, thunk, options))
+        ctx.tally('thresholds kind', cls)
+
+    def with_n(n, clauses):
+        F = CNF()
+        F.update_variable_number(n)
+        for c in clauses:
+            F.add_clause(c)
+        return F
+    # the number of variables / the value of a literal
+    for t in THRESHOLDS + BLOCKS + BIGINTS:
+        add('n = %d, literals +-%d and +-%d' % (t, t, t - 1), 'thr-literal',
+            lambda t=t: with_n(t, [[t, -1], [-t], [t - 1, -t, t], [-(t - 1)], [1]]), NO_NAMES if t > 1025 else ALL_OPTS)
+        add('n = %d, largest literal used %d' % (t + 2, t), 'thr-literal', lambda t=t: with_n(t + 2, [[-t, t], [2, -t]]), [(False, False, False), (True, False, True)])
+    # the width of a clause: repeated and opposite literals far from the start
+    for w in THRESHOLDS + [4096, 30000] + ([] if quick else [8192, 65536, 131073]):
+        def wide(w=w):
+            a = list(range(1, w))                     # w-1 distinct literals ...
+            return CNF([a + [-(w - 1)], [-x for x in a] + [-1], [1, -1] * (w // 2) + [2] * (w % 2), [3]])
+        add('clauses of %d literals (opposite pair at the far end, repeated literals)' % w, 'thr-width', wide, BOTH_VIA if w <= 1025 else [(False, False, True)])
+    # the number of clauses, the position of an empty clause
+    for m in THRESHOLDS + [4096, 8192] + ([] if quick else [65537, 131073]):
+        def many(m=m):
+            F = CNF()
+            F.update_variable_number(7)
+            for i in range(m):
+                F.add_clause([] if i in (m - 1, m // 2) else [1 + i % 7, -(1 + (i * 3) % 7)])
+            return F
+        add('%d clauses (clause %d and the last one empty)' % (m, m // 2 + 1), 'thr-clauses', many, BOTH_VIA if m <= 1025 else [(True, False, True)])
+    # the header: number of fields, length of a value / key / description, number of line breaks in a value
+    for k in THRESHOLDS:
+        def fields(k=k):
+            F = CNF([[1, -2], [2]])
+            for i in range(k - len(F.header)):
+                F.header['field%d' % i] = 'v%d' % i
+            return F
+        add('header with %d fields' % k, 'thr-header-fields', fields, [(True, False, False), (True, True, True)])
+    for t in THRESHOLDS + (QUICK_BLOCKS if quick else BLOCKS) + [100000]:
+        def longval(t=t):
+            F = CNF([[1, -2], [2]], description='d' * t)
+            if t <= 1025 or not quick:
+                F.header['k' * t] = 'v' * (t - 1) + ' '
+            return F
+        add('header field of %d characters' % t, 'thr-header-length', longval,
+            [(True, False, False), (True, False, True)] if t <= 1025 or not quick else [(True, False, t % 2 == 0)])
+    for t in THRESHOLDS + [4096, 65537] + ([] if quick else [8192, 131073]):
+        add('description with %d line breaks' % t, 'thr-header-lines',
+            lambda t=t: CNF([[1, -2], [2]], description='\n'.join('l%d' % i for i in range(t + 1))), [(True, False, True)] if t > 1025 else [(True, False, False), (True, False, True)])
+    # variable names: length of a name, number of names
+    for t in THRESHOLDS + (QUICK_BLOCKS if quick else BLOCKS) + [70000]:
+        def longname(t=t):
+            F = CNF()
+            F.new_variable('y')
+            F.new_variable('n' * t)
+            if t <= 1025 or not quick:
+                F.new_variable('z' * (t - 2) + ' 0')
+            F.add_clause([1, -2])
+            return F
+        add('variable name of %d characters' % t, 'thr-name-length', longname,
+            [(False, True, False), (True, True, True)] if t <= 1025 or not quick else [(False, True, t % 2 == 0)])
+    for t in THRESHOLDS + [4096, 8192] + ([] if quick else [65537, 131073]):
+        def manynames(t=t):
+            F = CNF()
+            F.new_block(t - 2, label='b_{}')
+            F.new_variable('last but one')
+            F.update_variable_number(t)
+            F.add_clause([t, -(t - 1), 1])
+            return F
+        add('%d variables with names' % t, 'thr-name-count', manynames, [(False, True, False), (True, True, True)] if t <= 1025 else [(False, True, True)])
+    return out
+
+
+def threshold_texts(rng, quick):
+    """[(text, kind)] -- reader inputs at the threshold sizes"""
+    out = []
+    for t in THRESHOLDS + [4096] + ([] if quick else [8192]):
+        lits = [(-1) ** i * (1 + i % t) for i in range(t)]
+        body = ' '.join(map(str, lits))
+        out.append(('p cnf %d 1\n%s 0\n' % (t, body), 'one clause of t literals on one line'))
+        out.append(('p cnf %d 1\n%s\n0\n' % (t, '\n'.join(map(str, lits))), 'one clause spread over t lines'))
+        out.append(('p cnf %d %d\n%s' % (t, t, ''.join('%d 0\n' % l for l in lits)), 't unit clauses'))
+        out.append(('p cnf %d %d\n%s' % (t, t, ' '.join('%d 0' % l for l in lits)), 't unit clauses on one line, no final newline'))
+        out.append(('p cnf %d %d\n%s' % (t, t - 1, ''.join('%d 0\n' % l for l in lits)), 't clauses, t-1 declared'))
+        out.append(('p cnf %d %d\n%s' % (t, t + 1, ''.join('%d 0\n' % l for l in lits)), 't clauses, t+1 declared'))
+        out.append(('p cnf %d 2\n%d 0\n%d 0\n' % (t, t, -t), 'literal n = t'))
+        out.append(('p cnf %d 2\n%d 0\n%d 0\n' % (t, t, t + 1), 'literal n+1 with n = t'))
+        out.append(('p cnf %d 2\n%d 0\n%d 0\n' % (t, 1, -(t + 1)), 'literal -(n+1) with n = t'))
+        out.append(('p cnf %d 1\n%s%d 0\n' % (t, '\n' * t, t), 't blank lines'))
+        out.append(('%sp cnf %d 1\n%d 0\n' % ('c x\n' * t, t, t), 't comment lines'))
+        out.append(('p cnf 3 1\n%sx 0\n' % ('1 0\n' * (t - 2)), 'bad literal at line t'))
+        out.append(('c\n' * (t - 1) + '1 0\np cnf 1 1\n', 'data before the problem line at line t'))
+        out.append(('p cnf 1 0\n' + 'c\n' * (t - 2) + 'p cnf 1 0\n', 'second problem line at line t'))
+        out.append(('c\n' * (t - 1) + 'p cnf 1\n', 'bad problem line at line t'))
+        out.append(('p cnf 5 1\n1%s-2%s0\n' % (' ' * t, '\t' * t), 'runs of t blanks'))
+        out.append(('p cnf 5 1\n%s1 %s2 0%s\n' % (' ' * t, '0' * t, ' ' * t), 't leading zeros, line padded with t blanks'))
+        out.append(('p cnf %s%d 1\n-%s3 0\n' % ('0' * t, 5, '0' * (t - 1)), 't leading zeros in the problem line'))
+        out.append(('p cnf %d 1\n%s 0' % (t, ' '.join(str(t) for _ in range(t))), 'literal t repeated t times'))
+    # physical lines of more than 65536 and 131072 characters
+    w = 30000
+    out.append(('p cnf %d 1\n%s 0\n' % (w, ' '.join(str((-1) ** i * (1 + (i * 7) % w)) for i in range(w))), 'one clause of 30000 literals on one line'))
+    out.append(('c %s\np cnf 2 1\n1 -2 0\n' % ('1 0 ' * 35000), 'comment line of 140000 characters'))
+    out.append(('p cnf 2 1%s\n1 -2 0\n' % (' ' * 70000), 'problem line padded to 70000 characters'))
+    for t in BIGINTS:
+        out.append(('p cnf %d 2\n%d -%d 0\n-%d 0\n' % (t, t, t, t - 1), 'n = literal = big'))
+        out.append(('p cnf %d 1\n%d 0\n' % (t, t + 1), 'literal n+1, big'))
+        out.append(('p cnf 1 %d\n1 0\n' % t, 'declared clause count big'))
+    return out
+
+
+def run_thresholds(ctx, cnfgen, quick):
+    t0 = time.time()
+    run_formulas(ctx, cnfgen, quick, formulas=build_thresholds(ctx, cnfgen, quick), stream='thresholds')
+    items = threshold_texts(ctx.rng, quick)
+    for _t, kind in items:
+        ctx.tally('thresholds text kind', kind)
+    compare_texts(ctx, cnfgen.CNF, 'thresholds-texts', items)
+    ctx.note('thresholds: %.0f s' % (time.time() - t0))
+
+
+
+# --------------------------------------------------------------------------
+# huge: outputs of more than 8 MiB / 16 MiB, more than 65536 / 131072 clauses or comment lines.  The character-level
+# model is too slow for these texts: the PROPERTY ITSELF is checked directly (write -> read back gives the same number
+# of variables and the same clauses in order; one problem line with the true counts; every other line a comment or the
+# tokens of one clause) -- the failing-input search of the framework applied to the input, in linear time.
+# --------------------------------------------------------------------------
+MIB = 1 << 20
+VIAS = ('StringIO', 'name', 'name-by-extension', 'fileobj', 'stdout')
+
+
+def write_via(F, via, header, names, path, fmt='dimacs', **kw):
+    """write F (format fmt) in one of the ways to_file accepts and return the text exactly as stored;
+    for 'name-by-extension' the path must carry the extension that selects fmt"""
+    import sys
+    if via == 'StringIO':
+        s = io.StringIO()
+        F.to_file(s, fileformat=fmt, export_header=header, export_varnames=names, **kw)
+        return s.getvalue()
+    if via == 'name':
+        F.to_file(path, fileformat=fmt, export_header=header, export_varnames=names, **kw)
+    elif via == 'name-by-extension':              # DIMACS is the documented default, .tex / .opb select the other two
+        F.to_file(path, export_header=header, export_varnames=names, **kw)
+    elif via == 'fileobj':
+        with open(path, 'w', encoding='utf-8') as f:
+            F.to_file(f, fileformat=fmt, export_header=header, export_varnames=names, **kw)
+    elif via == 'stdout':                         # fileorname=None: the standard output of the process, here a real file
+        old = sys.stdout
+        try:
+            with open(path, 'w', encoding='utf-8') as f:
+                sys.stdout = f
+                F.to_file(None, fileformat=fmt, export_header=header, export_varnames=names, **kw)
+        finally:
+            sys.stdout = old
+    else:
+        raise ValueError(via)
+    with open(path, 'r', newline='', encoding='utf-8') as f:
+        return f.read()
+
+
+def scrambled_clauses(seed, m, w, lo, hi):
+    """m clauses of w literals with absolute values in lo..hi, a fixed arithmetic scramble of (seed, i, j) (fast to build)"""
+    span = hi - lo + 1
+    a = (seed | 1) % 1000003
+    return [[(lo + (a * (i * w + j) + 7919 * j + i) % span) * (1 if ((i + j) * a >> 3) & 1 else -1) for j in range(w)] for i in range(m)]
+
+
+def direct_property(ctx, CNF, stream, descr, text, n, clauses, path=None, both=True):
+    """the statement of C06 on one written text, without the model.  True when it holds.
+    The text is read back from a StringIO and, when it is in a file, from the file given by name (both=False: only the latter)"""
+    got = [impl_read(CNF, text, False)] if (both or path is None) else []
+    if path is not None:
+        try:
+            G = CNF.from_file(path)
+            got.append(['ok', G.number_of_variables(), [list(c) for c in G]])
+        except Exception as e:  # noqa
+            got.append(['exc' if not isinstance(e, ValueError) else 'err', type(e).__name__, str(e)[:120]])
+    want = ['ok', n, clauses]
+    defect = shape_defect(text, n, clauses)
+    if all(g == want for g in got) and defect is None:
+        return True
+    ctx.disagreements_checked += 1
+    bad = next((g for g in got if g != want), None)
+    if bad is None:
+        kind = 'shape'
+    elif bad[0] == 'exc':
+        kind = 'raises-' + bad[1]
+    else:
+        kind = 'roundtrip'
+    where = None
+    if bad is not None and bad[0] == 'ok':
+        if bad[1] != n:
+            where = 'number of variables %d, written %d' % (bad[1], n)
+        elif len(bad[2]) != len(clauses):
+            where = '%d clauses read, %d written' % (len(bad[2]), len(clauses))
+        else:
+            i = next(i for i, (a, b) in enumerate(zip(bad[2], clauses)) if a != b)
+            where = 'clause %d read as %r..., written %r...' % (i + 1, bad[2][i][:8], clauses[i][:8])
+    ctx.violation('counterexample', 'DIMACS round trip or output shape fails on a large output: %s' % (defect or where or bad[:3]),
+                  dict(input=descr, text_length=len(text), text_start=text[:300], text_end=text[-300:],
+                       read_back=[g[:2] if g[0] == 'ok' else g for g in got], shape=defect), True, site='dimacs-roundtrip', cls=kind)
+    return False
+
+
+def huge_case(ctx, cnfgen, label, make, vias, header=True, names=False, pad_to=None, both=True):
+    """make() -> CNF object.  pad_to: total size of the output in bytes, reached exactly with a header field of x's"""
+    CNF = cnfgen.CNF
+    F = make()
+    n, clauses = F.number_of_variables(), [list(c) for c in F]
+    if not header:
+        pad_to = None           # the padding is a header field
+    if pad_to is not None:
+        F.header['padding'] = ''
+        s = io.StringIO()
+        F.to_file(s, fileformat='dimacs', export_header=header, export_varnames=names)
+        k = pad_to - len(s.getvalue().encode('utf-8'))
+        if k < 0:
+            ctx.note('huge: %s is already larger than the padding target' % label)
+        else:
+            F.header['padding'] = 'x' * k
+    sizes = set()
+    for via in vias:
+        path = tmp_path('huge.cnf')
+        descr = dict(formula=label, n=n, clauses='%d clauses' % len(clauses), export_header=header, export_varnames=names, via=via,
+                     padded_to=pad_to)
+        ctx.count('huge', (label, via), True, sample=descr)
+        ctx.tally('huge via', via)
+        try:
+            text = write_via(F, via, header, names, path)
+        except Exception as e:  # noqa
+            ctx.disagreements_checked += 1
+            ctx.violation('counterexample', 'writing a large formula to DIMACS (%s) raised %s' % (via, type(e).__name__),
+                          dict(input=descr, implementation=[type(e).__name__, str(e)[:160]]), True, site='to_dimacs_file', cls='raises-' + type(e).__name__)
+            continue
+        sizes.add(len(text))
+        lines = text.count('\n')
+        ctx.tally('huge output size', '>16MiB' if len(text) > 16 * MIB else '>8MiB' if len(text) > 8 * MIB else '>1MiB' if len(text) > MIB else '<=1MiB')
+        ctx.tally('huge output lines', '>131072' if lines > 131072 else '>65536' if lines > 65536 else '<=65536')
+        ctx.tally('huge longest line', '>131072' if any(len(c) > 20000 for c in clauses[:3]) or any(len(str(v)) > 131072 for v in F.header.values())
+                  else 'short')
+        if pad_to is not None and len(text.encode('utf-8')) != pad_to and k >= 0:
+            ctx.violation('correspondence', 'the size of the output does not grow by one byte per padding character',
+                          dict(input=descr, size=len(text), expected=pad_to), False, site='to_dimacs_file', cls='size')
+        direct_property(ctx, CNF, 'huge', descr, text, n, clauses, path if via != 'StringIO' else None, both)
+    if len(sizes) > 1:
+        ctx.violation('correspondence', 'the same formula written through different kinds of destination gives texts of different sizes',
+                      dict(input=dict(formula=label, vias=list(vias)), sizes=sorted(sizes)), False, site='to_dimacs_file', cls='via-differs')
+    return F, n, clauses
+
+
+def run_huge(ctx, cnfgen, quick):
+    CNF = cnfgen.CNF
+    rng = ctx.rng
+    t0 = time.time()
+    seed = rng.randrange(1 << 30)
+    N = 3000000
+    big = {}
+
+    def wide():      # > 65536 clauses, > 16 MiB
+        return CNF(scrambled_clauses(seed, 67000, 29, N - 5000, N))
+
+    def tall():      # > 131072 clauses, > 8 MiB
+        return CNF(scrambled_clauses(seed + 1, 140000, 6, N - 70000, N))
+
+    def named(k):
+        def f():
+            F = CNF()
+            F.new_block(k // 2, 2, label='v_{{{},{}}}')
+            F.update_variable_number(k + 3)
+            F.add_clause([k + 3, -k, 1])
+            F.add_clause([])
+            F.add_clause([-(k + 2)])
+            return F
+        return f
+
+    def one_line(w):  # one clause of w literals: a physical line of more than 131072 characters for w = 30000
+        return lambda: CNF([[(-1) ** i * (1 + (i * 7) % w) for i in range(w)], [1]])
+
+    def long_fields(k, j):
+        def f():
+            F = CNF([[1, -2], [2, 3]], description='D' * k)
+            F.new_variable('N' * j)
+            return F
+        return f
+    if quick:
+        F, n, clauses = huge_case(ctx, cnfgen, '67000 clauses of 29 literals below 3000000', wide, ('name',), pad_to=16 * MIB + 1, both=False)
+        big = dict(F=F, n=n, clauses=clauses)
+        huge_case(ctx, cnfgen, '140000 clauses of 6 literals below 3000000', tall, ('stdout',), pad_to=8 * MIB + 1, both=False)
+        huge_case(ctx, cnfgen, '140003 variables with names', named(140000), ('name-by-extension',), names=True)
+        huge_case(ctx, cnfgen, 'one clause of 30000 literals', one_line(30000), ('StringIO',))
+        huge_case(ctx, cnfgen, 'description of 100000 characters, name of 70000 characters', long_fields(100000, 70000), ('fileobj',), names=True)
+    else:
+        for i, target in enumerate((8 * MIB - 1, 8 * MIB, 8 * MIB + 1)):
+            huge_case(ctx, cnfgen, '140000 clauses of 6 literals below 3000000', tall, VIAS if i == 2 else VIAS[i + 1:i + 2], pad_to=target)
+        for i, target in enumerate((16 * MIB - 1, 16 * MIB, 16 * MIB + 1, 32 * MIB + 1)):
+            F, n, clauses = huge_case(ctx, cnfgen, '67000 clauses of 29 literals below 3000000', wide, VIAS if i == 2 else VIAS[i:i + 1], pad_to=target,
+                                      both=i == 2)
+        big = dict(F=F, n=n, clauses=clauses)
+        huge_case(ctx, cnfgen, '1300000 clauses of 3 literals', lambda: CNF(scrambled_clauses(seed + 2, 1300000, 3, 1, 900)), ('name', 'stdout'), both=False)
+        for i, k in enumerate((65536, 131072, 140000, 300000)):
+            huge_case(ctx, cnfgen, '%d variables with names' % (k + 3), named(k), VIAS[i:i + 2] or VIAS[:2], names=True)
+        for i, w in enumerate((30000, 65537, 131073, 400000)):
+            huge_case(ctx, cnfgen, 'one clause of %d literals' % w, one_line(w), VIAS[i:i + 2] or VIAS[:2])
+        for k, j in ((100000, 70000), (131073, 131073), (2000000, 1000000)):
+            huge_case(ctx, cnfgen, 'description of %d characters, name of %d characters' % (k, j), long_fields(k, j), VIAS, names=True)
+        for i in range(4):
+            m, w = rng.choice([(66000, 11), (132000, 5), (70000, 17), (200000, 4), (9000, 200), (500, 5000)])
+            huge_case(ctx, cnfgen, '%d clauses of %d literals (random instance %d)' % (m, w, i),
+                      lambda m=m, w=w, i=i: CNF(scrambled_clauses(seed + 10 + i, m, w, 1, rng.choice([9, 300, 70000, 10 ** 9]))),
+                      rng.sample(VIAS, 2), header=rng.random() < 0.7,
+                      pad_to=rng.choice([None, 8 * MIB + rng.randint(-2, 2), 16 * MIB + rng.randint(-2, 2), 4 * MIB, 12 * MIB + 4095]))
+    # the command line on the largest file: `cnfgen -q dimacs FILE` to standard output (a pipe), `-o OUT` in the thorough tier
+    src = tmp_path('huge-src.cnf')
+    big['F'].to_file(src, fileformat='dimacs')
+    runs = [(['-q', 'dimacs', src], None)] + ([] if quick else [(['-q', '-o', tmp_path('huge-out.cnf'), 'dimacs', src], tmp_path('huge-out.cnf')),
+                                                                (['-o', tmp_path('huge-out2'), '-of', 'dimacs', 'dimacs', src], tmp_path('huge-out2'))])
+    for argv, out in runs:
+        code, stdout, err = cli_child(['cnfgen'] + argv)
+        descr = dict(argv=['cnfgen'] + argv, file='the 67000-clause formula above (more than 16 MiB)', n=big['n'], clauses='%d clauses' % len(big['clauses']))
+        ctx.count('huge-cli', tuple(argv), True, sample=descr)
+        if code != 0 or 'Traceback' in err:
+            ctx.disagreements_checked += 1
+            ctx.violation('counterexample', '`cnfgen dimacs FILE` on a large file written by cnfgen exits with %d' % code,
+                          dict(input=descr, implementation=[code, err[-400:]]), True, site='cli-dimacs', cls='rejects-own-output')
+            continue
+        if out is not None:
+            with open(out, 'r', newline='', encoding='utf-8') as f:
+                text = f.read()
+        else:
+            text = stdout.decode('utf-8', 'replace')
+        direct_property(ctx, CNF, 'huge-cli', descr, text, big['n'], big['clauses'], out, both=not quick)
+    ctx.note('huge: %.0f s' % (time.time() - t0))
+
+
+
+# --------------------------------------------------------------------------
+# shapes: rare kinds of destination and of names.
+#   * the format is decided as guess_output_format documents it: an explicit request wins, else the file name ENDING in
+#     '.tex' / '.opb' selects LaTeX / OPB, else DIMACS -- 'cover_vertex', 'formula_opb', 'x.latex', 'a.tex.cnf' are DIMACS;
+#   * destinations: file name, open file object (named, anonymous, with a descriptor or bytes as name), write-only object,
+#     standard output;
+#   * variable names outside ASCII through each of them, also in a process whose locale is not UTF-8.
+# The oracle for the format is written from the docstring only (no model of os.path.splitext here).
+# --------------------------------------------------------------------------
+DIMACS_NAMES = ['cover_vertex', 'formula_opb', 'x.latex', 'a.tex.cnf', 'opb', 'tex', 'vertex', 'xopb', 'x.cnf', 'x.dimacs', 'noext', 'a.b.c',
+                'tex.', 'x.opb.bak', 'x.tex~', 'X.TEX', 'x.Opb', 'dir.tex/out', 'dir.opb/out.cnf', 'x.tex.', 'x.tex ', 'x.texx', 'x.opbb', 'x.te',
+                'latex', 'x_tex', 'x-opb', 'x.ópb', 'α.cnf']
+LATEX_NAMES = ['y.tex', 'a.cnf.tex', 'a.opb.tex', 'dir.opb/z.tex', 'sp ace.tex', 'cover_vertex.tex', 'é.tex', 'a..tex']
+OPB_NAMES = ['y.opb', 'a.tex.opb', '.hidden.opb', 'dir.tex/z.opb', 'formula_opb.opb', 'a.cnf.opb']
+
+
+def documented_format(name, request, opb_class=False):
+    """the format to_file / the command line must use, read off the docstrings of guess_output_format and OPB.to_file"""
+    if isinstance(name, bytes):
+        name = name.decode('utf-8')
+    by_name = 'latex' if name.endswith('.tex') else 'opb' if name.endswith('.opb') else 'dimacs'
+    fmt = request if request is not None else by_name
+    if opb_class and fmt == 'dimacs':
+        fmt = 'opb'            # an OPB object has no DIMACS form: OPB is its default
+    return fmt
+
+
+def format_of_text(text):
+    if text.startswith('%\n\\documentclass'):
+        return 'latex'
+    if text.startswith('* #variable= '):
+        return 'opb'
+    rest = [l for l in text.split('\n') if not l.startswith('c')]
+    if rest and rest[0].startswith('p cnf '):
+        return 'dimacs'
+    return 'unknown'
+
+
+class WriteOnly:
+    """the least a destination can be: an object with write()"""
+
+    def __init__(self):
+        self.parts = []
+
+    def write(self, s):
+        self.parts.append(s)
+
+
+def destinations(tmp, quick, extra_names=()):
+    """[(label, open() -> (destination, close() -> text written), name seen by guess_output_format or None (0: a name that is not
+    a string))]; extra_names: more file objects opened under these names (str or bytes)"""
+    import tempfile as tf
+
+    def named_file(name, **kw):
+        def op():
+            p = os.path.join(tmp, name) if not isinstance(name, bytes) else os.path.join(tmp.encode(), name)
+            os.makedirs(os.path.dirname(p), exist_ok=True)
+            f = open(p, 'w', encoding='utf-8', **kw)
+
+            def close():
+                f.close()
+                with open(p, 'r', newline='', encoding='utf-8') as g:
+                    return g.read()
+            return f, close
+        return op
+
+    def seekable(mk):
+        def op():
+            f = mk()
+
+            def close():
+                f.flush()
+                f.seek(0)
+                t = f.read()
+                f.close()
+                return t
+            return f, close
+        return op
+
+    def write_only():
+        w = WriteOnly()
+        return w, lambda: ''.join(w.parts)
+
+    def string_io():
+        s = io.StringIO()
+        return s, s.getvalue
+    out = [('StringIO', string_io, None), ('object with write() only', write_only, None),
+           ('tempfile.TemporaryFile (name is a descriptor number)', seekable(lambda: tf.TemporaryFile('w+', encoding='utf-8', newline='')), 0),
+           ('tempfile.SpooledTemporaryFile (name is None)', seekable(lambda: tf.SpooledTemporaryFile(mode='w+', encoding='utf-8', newline='')), 0),
+           ('tempfile.NamedTemporaryFile', seekable(lambda: tf.NamedTemporaryFile('w+', encoding='utf-8', newline='', suffix='.cnf', dir=tmp)), 'x.cnf'),
+           ('file object, line buffered', named_file('lb.cnf', buffering=1), 'lb.cnf'),
+           ('file object, 16-byte buffer', named_file('tiny.cnf', buffering=16), 'tiny.cnf'),
+           ('file object opened with a bytes path', named_file(b'bytes.cnf'), b'bytes.cnf'),
+           ('file object opened with a bytes path ending in _opb', named_file(b'formula_opb'), b'formula_opb')]
+    for nm in (DIMACS_NAMES[:6] if quick else DIMACS_NAMES) + ['y.tex', 'y.opb'] + list(extra_names):
+        out.append(('file object named %r' % (nm,), named_file(nm), nm))
+    return out
+
+
+def shape_formulas(cnfgen):
+    CNF = cnfgen.CNF
+
+    def uni():
+        F = CNF(description='caf\xe9 α 数')
+        for nm in ('α', '\xe9_1', '数^2', 'x', 'na\xefve αβ'):
+            F.new_variable(nm)
+        F.add_clause([1, -2, 3])
+        F.add_clause([-4, 5])
+        return F
+
+    def plain():
+        F = CNF([[1, -2], [], [2, 3]], description='plain')
+        F.update_variable_number(5)
+        return F
+
+    def odd_header():
+        F = CNF([[1, -2]])
+        F.header[None] = None
+        F.header[3] = [1, 'two', (3,)]
+        F.header[b'bytes'] = b'\xff\x00'
+        F.header[('t', 1)] = {'k': 1.5}
+        F.header[''] = ''
+        return F
+
+    def no_header():
+        F = CNF([[1, -2], [2]])
+        F.header.clear()
+        return F
+    return [('names outside ASCII', uni), ('plain', plain), ('header keys and values that are not strings', odd_header), ('header emptied', no_header)]
+
+
+UNICODE_CHILD = r"""# -*- coding: utf-8 -*-
+import sys, os, io, json, locale
+d, fmt, mode = sys.argv[1:4]
+import cnfgen
+from cnfgen.formula.opb import OPB
+def build(cls):
+    F = cls(description='caf\xe9 α 数')
+    for nm in ('α', '\xe9_1', '数^2', 'x', 'na\xefve αβ'):
+        F.new_variable(nm)
+    if cls is OPB:
+        F.add_constraint([(2, 1), (3, -2), (1, 3), '>=', 2])
+        F.add_constraint([(1, -4), (1, 5), '==', 1])
+    else:
+        F.add_clause([1, -2, 3])
+        F.add_clause([-4, 5])
+    return F
+res = dict(encoding=[locale.getpreferredencoding(False), sys.stdout.encoding, sys.flags.utf8_mode])
+for kind, cls in (('cnf', cnfgen.CNF), ('opb', OPB)):
+    if kind == 'opb' and fmt == 'dimacs':
+        continue
+    F = build(cls)
+    if mode == 'stdout':
+        if kind == sys.argv[4]:
+            F.to_file(None, fileformat=fmt, export_header=False, export_varnames=True)
+        continue
+    ext = {'dimacs': 'cnf', 'opb': 'opb', 'latex': 'tex'}[fmt]
+    def attempt(label, f):
+        try:
+            f()
+            res[kind + ':' + label] = 'ok'
+        except Exception as e:
+            res[kind + ':' + label] = [type(e).__name__, str(e)[:100]]
+    attempt('name', lambda: F.to_file(os.path.join(d, kind + '-name.out'), fileformat=fmt, export_varnames=True))
+    attempt('name-by-extension', lambda: F.to_file(os.path.join(d, kind + '-ext.' + ext), export_varnames=True))
+    def fileobj():
+        with open(os.path.join(d, kind + '-fileobj.out'), 'w', encoding='utf-8') as f:
+            F.to_file(f, fileformat=fmt, export_varnames=True)
+    attempt('fileobj', fileobj)
+    def non_ascii_path():
+        F.to_file(os.path.join(d, kind + '-α\xe9.' + ext), export_varnames=True)
+    if sys.getfilesystemencoding().lower().replace('-', '') == 'utf8':     # else open() itself cannot name the file
+        attempt('non-ascii-path', non_ascii_path)
+    if fmt == 'dimacs':
+        def readback():
+            G = cnfgen.CNF.from_file(os.path.join(d, kind + '-name.out'))
+            res['readback'] = [G.number_of_variables(), [list(c) for c in G]]
+        attempt('read-by-name', readback)
+if mode != 'stdout':
+    sys.stdout.write(json.dumps(res))
+"""
+CHILD_ENVS = [('default', {}), ('C locale, UTF-8 mode off', {'LC_ALL': 'C', 'LANG': 'C', 'PYTHONUTF8': '0', 'PYTHONCOERCECLOCALE': '0'})]
+
+
+def unicode_child(tmp, fmt, mode, envname, extra, kind='cnf'):
+    env = dict(os.environ, PYTHONPATH=lib.REPO, CNFGEN_VERIF='1')
+    env.update(extra)
+    sub = os.path.join(tmp, 'u-%s-%s-%s-%d' % (fmt, mode, kind, [e[0] for e in CHILD_ENVS].index(envname)))
+    os.makedirs(sub, exist_ok=True)
+    script = os.path.join(sub, 'child.py')       # a file: a process in the C locale cannot decode a non-ASCII `-c` argument
+    with open(script, 'w', encoding='utf-8') as f:
+        f.write(UNICODE_CHILD)
+    r = subprocess.run([lib.PY, '-W', 'ignore', script, sub, fmt, mode, kind], cwd=lib.REPO, env=env, stdout=subprocess.PIPE,
+                       stderr=subprocess.PIPE, timeout=300)
+    return sub, r.returncode, r.stdout, r.stderr.decode('utf-8', 'replace')
+
+
+UNI_NAMES = ['α', '\xe9_1', '数^2', 'x', 'na\xefve αβ']
+
+
+def run_shapes(ctx, cnfgen, quick):
+    import shutil
+    from concurrent.futures import ThreadPoolExecutor
+    CNF = cnfgen.CNF
+    t0 = time.time()
+    tmp = tempfile.mkdtemp(prefix='c06shapes-')
+    forms = shape_formulas(cnfgen)
+    # ---- (1) every kind of destination x explicit / implicit format
+    for flabel, mk in forms:
+        F = mk()
+        n, clauses = F.number_of_variables(), [list(c) for c in F]
+        for dlabel, op, seen in destinations(tmp, quick):
+            for request in (None, 'dimacs'):
+                names = flabel == 'names outside ASCII'
+                descr = dict(formula=flabel, destination=dlabel, fileformat=request, n=n, clauses=clauses, export_varnames=names,
+                             names=list(F.all_variable_labels()) if names else None)
+                expected = 'dimacs' if seen is None or seen == 0 else documented_format(seen, request)
+                if expected != 'dimacs' and flabel != 'plain':
+                    continue          # the OPB / LaTeX renderings are property C12 (harness/c12.py runs this table on its formulas)
+                ctx.count('shapes-destination', (flabel, dlabel, request), True, sample=descr)
+                ctx.tally('shapes destination', dlabel.split(' named ')[0])
+                dest, close = op()
+                try:
+                    F.to_file(dest, fileformat=request, export_varnames=names)
+                    exc = None
+                except Exception as e:  # noqa
+                    exc = e
+                try:
+                    text = close()
+                except Exception as e:  # noqa
+                    text, exc = None, exc or e
+                if exc is not None:
+                    ctx.disagreements_checked += 1
+                    guessing = request is None and isinstance(exc, TypeError) and not isinstance(seen, str) and seen is not None
+                    ctx.violation('counterexample', 'to_file(<%s>, fileformat=%r) raised %s: %s' % (dlabel, request, type(exc).__name__, str(exc)[:100]),
+                                  dict(input=descr, implementation=[type(exc).__name__, str(exc)[:160]]), True,
+                                  site='guess_output_format' if guessing else 'to_dimacs_file',
+                                  cls='file-object-name-not-a-string' if guessing else 'raises-' + type(exc).__name__)
+                    continue
+                got = format_of_text(text)
+                if got != expected:
+                    ctx.disagreements_checked += 1
+                    ctx.violation('counterexample', 'to_file(<%s>, fileformat=%r) wrote %s, the documented format is %s' % (dlabel, request, got, expected),
+                                  dict(input=descr, text_start=text[:200], documented='guess_output_format: explicit request, else the name ends in .tex / .opb, else dimacs'),
+                                  True, site='guess_output_format', cls='format-%s-instead-of-%s' % (got, expected))
+                    continue
+                if expected == 'dimacs':
+                    direct_property(ctx, CNF, 'shapes-destination', descr, text, n, clauses)
+                    if names and any(('c varname %d %s' % (i + 1, nm)) not in text.split('\n') for i, nm in enumerate(F.all_variable_labels())):
+                        ctx.violation('counterexample', 'a variable name outside ASCII is not written as it is in the varname comments',
+                                      dict(input=descr, text_start=text[:400]), True, site='to_dimacs_file', cls='unicode-name-changed')
+    # ---- (2) file names: to_file(name) and `cnfgen -o name`, with and without an explicit format
+    F = cnfgen.PigeonholePrinciple(3, 2)
+    n, clauses = F.number_of_variables(), [list(c) for c in F]
+    table = [(nm, 'dimacs') for nm in DIMACS_NAMES] + [(nm, 'latex') for nm in LATEX_NAMES] + [(nm, 'opb') for nm in OPB_NAMES]
+    jobs = []
+    for k, (nm, by_name) in enumerate(table):
+        for request in (None, 'dimacs', 'latex', 'opb'):
+            if request is not None and (quick and (k + len(request)) % 4):
+                continue
+            jobs.append((nm, request, 'to_file(name)'))
+            if not quick or request is None and (k % 3 == 0 or nm in ('cover_vertex', 'formula_opb', 'x.latex', 'a.tex.cnf')):
+                jobs.append((nm, request, 'cnfgen -o name'))
+    sub = {}
+    for how in ('to_file(name)', 'cnfgen -o name'):
+        for request in (None, 'dimacs', 'latex', 'opb'):     # one directory per (way, request): the command lines run in parallel
+            sub[(how, request)] = os.path.join(tmp, 'names-%s-%s' % (how[:3], request))
+            for nm, _ in table:
+                os.makedirs(os.path.dirname(os.path.join(sub[(how, request)], nm)), exist_ok=True)
+
+    def do(job):
+        nm, request, how = job
+        p = os.path.join(sub[(how, request)], nm)
+        if how == 'to_file(name)':
+            try:
+                F.to_file(p, fileformat=request)
+                res = (0, '')
+            except Exception as e:  # noqa
+                res = (type(e).__name__, str(e)[:160])
+        else:
+            code, _out, err = cli_child(['cnfgen', '-o', p] + (['-of', request] if request else []) + ['php', '3', '2'])
+            res = (code, err[-300:])
+        try:
+            with open(p, 'r', newline='', encoding='utf-8') as f:
+                text = f.read()
+        except OSError:
+            text = None
+        return res, text
+    cli_jobs = [j for j in jobs if j[2] != 'to_file(name)']
+    with ThreadPoolExecutor(max_workers=4) as ex:
+        cli_res = dict(zip(cli_jobs, ex.map(do, cli_jobs)))
+    for job in jobs:
+        nm, request, how = job
+        res, text = cli_res[job] if job in cli_res else do(job)
+        expected = documented_format(nm, request)
+        descr = dict(file_name=nm, fileformat=request, how=how, formula='php 3 2')
+        ctx.count('shapes-file-name', job, True, sample=descr)
+        ctx.tally('shapes file name: documented format', '%s%s' % (expected, ' (explicit)' if request else ' (by name)'))
+        ctx.tally('shapes file name: how', how)
+        if res[0] != 0 or text is None:
+            ctx.disagreements_checked += 1
+            ctx.violation('counterexample', '%s with the file name %r%s fails: %r' % (how, nm, ' and format %s' % request if request else '', res),
+                          dict(input=descr, implementation=list(res)), True, site='guess_output_format', cls='raises-%s' % (res[0],))
+            continue
+        got = format_of_text(text)
+        if got != expected:
+            ctx.disagreements_checked += 1
+            ctx.violation('counterexample', '%s with the file name %r%s wrote %s; the documented format is %s (an explicit request wins, else the '
+                          'name must END in .tex / .opb)' % (how, nm, ' and format %s' % request if request else '', got, expected),
+                          dict(input=descr, text_start=text[:200]), True, site='guess_output_format', cls='format-%s-instead-of-%s' % (got, expected))
+            continue
+        if expected == 'dimacs':
+            direct_property(ctx, CNF, 'shapes-file-name', descr, text, n, clauses)
+    # ---- (3) names outside ASCII written by a process whose locale is / is not UTF-8
+    runs = [(fmt, mode, en, ex_) for (en, ex_) in CHILD_ENVS for fmt, mode in (('dimacs', 'files'), ('dimacs', 'stdout'))]
+    with ThreadPoolExecutor(max_workers=4) as ex:
+        results = list(ex.map(lambda r: unicode_child(tmp, r[0], r[1], r[2], r[3]), runs))
+    Fu = forms[0][1]()
+    nu, cu = Fu.number_of_variables(), [list(c) for c in Fu]
+    for (fmt, mode, en, _x), (d, code, out, err) in zip(runs, results):
+        descr = dict(names=UNI_NAMES, format=fmt, destination=mode, environment=en, n=nu, clauses=cu)
+        ctx.count('shapes-unicode-process', (fmt, mode, en), True, sample=descr)
+        if mode == 'stdout':
+            if code != 0:
+                if 'UnicodeEncodeError' in err and en != 'default':
+                    ctx.tally('shapes unicode: standard output of a process in an ASCII locale', 'UnicodeEncodeError (the encoding of that stream is the caller\'s)')
+                    continue
+                ctx.violation('counterexample', 'writing names outside ASCII to the standard output (%s) fails' % en,
+                              dict(input=descr, implementation=[code, err[-300:]]), True, site='to_dimacs_file', cls='unicode-stdout')
+                continue
+            try:
+                text = out.decode('utf-8')
+            except UnicodeDecodeError:
+                text = None
+            if text is None or not direct_property(ctx, CNF, 'shapes-unicode-process', descr, text, nu, cu) or \
+                    any(('c varname %d %s' % (i + 1, nm)) not in text.split('\n') for i, nm in enumerate(UNI_NAMES)):
+                if text is None or all(('c varname %d %s' % (i + 1, nm)) in text.split('\n') for i, nm in enumerate(UNI_NAMES)) is False:
+                    ctx.violation('counterexample', 'names outside ASCII written to the standard output (%s) are not the names of the formula in UTF-8' % en,
+                                  dict(input=descr, stdout_bytes=repr(out[:300])), True, site='to_dimacs_file', cls='unicode-name-changed')
+            continue
+        try:
+            res = json.loads(out.decode('utf-8'))
+        except Exception:  # noqa
+            ctx.violation('counterexample', 'the process writing names outside ASCII (%s) died' % en, dict(input=descr, implementation=[code, err[-400:]]),
+                          True, site='to_dimacs_file', cls='unicode-process')
+            continue
+        ctx.tally('shapes unicode: encodings of the process', '%s -> %s' % (en, res['encoding']))
+        for key, fname in (('cnf:name', 'cnf-name.out'), ('cnf:name-by-extension', 'cnf-ext.cnf'), ('cnf:fileobj', 'cnf-fileobj.out'),
+                           ('cnf:non-ascii-path', None)):
+            d2 = dict(descr, destination=key)
+            if key not in res:
+                ctx.tally('shapes unicode: skipped', '%s: %s' % (en, key))
+                continue
+            if res.get(key) != 'ok':
+                ctx.disagreements_checked += 1
+                ctx.violation('counterexample', 'to_file (%s) of a formula with names outside ASCII raised %s in a process with %s' % (key, res.get(key), en),
+                              dict(input=d2, implementation=res.get(key)), True, site='to_dimacs_file', cls='unicode-raises-%s' % (res.get(key) or ['none'])[0])
+                continue
+            if fname is None:
+                cands = [f for f in os.listdir(os.fsencode(d)) if f.startswith(b'cnf-') and f.endswith(b'.cnf') and f != b'cnf-ext.cnf']
+                pth = os.path.join(os.fsencode(d), cands[0]) if cands else None
+            else:
+                pth = os.path.join(d, fname)
+            try:
+                with open(pth, 'rb') as f:
+                    raw = f.read()
+                text = raw.decode('utf-8')
+            except Exception as e:  # noqa
+                ctx.disagreements_checked += 1
+                ctx.violation('counterexample', 'the file written (%s) with names outside ASCII by a process with %s is not UTF-8 text' % (key, en),
+                              dict(input=d2, error=str(e)[:100]), True, site='to_dimacs_file', cls='unicode-file-encoding')
+                continue
+            text = text.replace('\r\n', '\n')
+            if not direct_property(ctx, CNF, 'shapes-unicode-process', d2, text, nu, cu):
+                continue
+            if any(('c varname %d %s' % (i + 1, nm)) not in text.split('\n') for i, nm in enumerate(UNI_NAMES)):
+                ctx.violation('counterexample', 'a variable name outside ASCII is not written as it is (%s, process with %s)' % (key, en),
+                              dict(input=d2, text_start=text[:400]), True, site='to_dimacs_file', cls='unicode-name-changed')
+        if res.get('cnf:read-by-name') != 'ok' or res.get('readback') != [nu, cu]:
+            ctx.violation('counterexample', 'CNF.from_file(name) on a file with names outside ASCII in its comments fails in a process with %s' % en,
+                          dict(input=descr, implementation=[res.get('cnf:read-by-name'), res.get('readback')]), True, site='parse_dimacs', cls='unicode-comment')
+    shutil.rmtree(tmp, ignore_errors=True)
+    ctx.note('shapes: %.0f s' % (time.time() - t0))
+
+
+
+# --------------------------------------------------------------------------
+# history: ONE formula object built by a random sequence of public API calls and written again and again, with edits in
+# between (clauses added, the variable count raised by several units at once, variables named, header fields set and
+# deleted, the object used as the input of a transformation, the written text read back and extended), through
+# destinations that are reused (the same file name for every snapshot: it must be truncated).  Each snapshot is compared
+# with the model exactly as the formulas stream does.  The reader is called on a sequence of texts with repetitions.
+# --------------------------------------------------------------------------
+def run_history(ctx, cnfgen, quick):
+    import random
+    CNF = cnfgen.CNF
+    t0 = time.time()
+    cases = []
+    path = tmp_path('history.cnf')
+    for run_no in range(40 if quick else 400):
+        r = random.Random(ctx.rng.randrange(1 << 30))
+        F = CNF(description=r.choice(['history %d' % run_no, 'two\nlines', '']))
+        log = []
+        big_run = run_no % 7 == 3
+        for step in range(r.randint(4, 12)):
+            n = F.number_of_variables()
+            op = r.choice(['add_clause', 'add_clause', 'add_clauses_from', 'raise', 'raise-to-threshold', 'new_variable', 'new_block', 'header-set',
+                           'header-del', 'transform', 'reread', 'empty-clause', 'many-clauses'])
+            try:
+                if op == 'add_clause' and n:
+                    c = [r.choice([1, -1]) * r.randint(1, n) for _ in range(r.choice([1, 2, 3, 17, 40]))]
+                    F.add_clause(c)
+                elif op == 'add_clauses_from' and n:
+                    F.add_clauses_from([[r.choice([1, -1]) * r.randint(1, n) for _ in range(r.randint(0, 3))] for _ in range(r.randint(0, 5))])
+                elif op == 'raise':
+                    F.update_variable_number(n + r.choice([2, 3, 5, 10]))
+                elif op == 'raise-to-threshold':
+                    t = r.choice([x for x in THRESHOLDS + [4096, 65536, 65537] if x > n] or [n + 2])
+                    if t <= 1025 or big_run:
+                        F.update_variable_number(t)
+                    op += ' %d' % t
+                elif op == 'new_variable':
+                    F.new_variable(r.choice(['v', 'w_%d' % step, 'line\nbreak %d' % step, 'caf\xe9 %d' % step, 'c p cnf %d 0' % step]) + str(run_no * 100 + step))
+                elif op == 'new_block':
+                    F.new_block(r.randint(1, 3), r.randint(1, 4), label='b%d_{{{{{{}},{{}}}}}}' % step)
+                elif op == 'header-set':
+                    F.header[r.choice(['note', 'k%d' % step, 'description'])] = r.choice(['v', 'x' * 300, 'a\r\nb', str(step)])
+                elif op == 'header-del' and len(F.header) > 1:
+                    k = r.choice([k for k in F.header if k != 'description'] or ['description'])
+                    if k != 'description':
+                        del F.header[k]
+                elif op == 'transform' and 0 < n <= 60 and len(F) <= 60:
+                    # a substitution of rank 2 turns a clause of w literals into 2^w clauses: only on narrow formulas
+                    tr = r.choice(['xor', 'shuffle', 'flip'] if max([len(c) for c in F], default=0) <= 4 else ['shuffle', 'flip'])
+                    {'xor': lambda: cnfgen.XorSubstitution(F, 2), 'shuffle': lambda: cnfgen.Shuffle(F), 'flip': lambda: cnfgen.FlipPolarity(F)}[tr]()
+                    op += ' ' + tr
+                elif op == 'reread':
+                    G = CNF.from_file(io.StringIO(F.to_dimacs()))       # the formula goes on as the object the reader returned
+                    G.header['description'] = 'read back at step %d' % step
+                    F = G
+                elif op == 'empty-clause':
+                    F.add_clause([])
+                elif op == 'many-clauses' and n and big_run:
+                    m = r.choice([255, 256, 257, 1025])
+                    F.add_clauses_from([[1 + i % n, -(1 + (i * 5) % n)] for i in range(m)])
+                    op += ' %d' % m
+                else:
+                    continue
+            except ValueError as e:
+                op += ' (refused: %s)' % str(e)[:40]
+            log.append(op)
+            ctx.tally('history operation', op.split(' ')[0])
+            if r.random() < 0.55 or step == 0:
+                n = F.number_of_variables()
+                clauses = [list(c) for c in F]
+                labels = list(F.all_variable_labels()) if n <= 5000 else None
+                header = r.random() < 0.7
+                names = labels is not None and all(latin1(x) for x in labels) and r.random() < 0.5
+                via = r.choice(['StringIO', 'name', 'name', 'fileobj', 'stdout'])
+                c = dict(label='history %d step %d' % (run_no, step), cls='history', F=F, n=n, clauses=clauses, labels=labels, header=header,
+                         names=names, to_file=via != 'StringIO', via=via + (' (same file as the previous snapshots)' if via != 'StringIO' else ''),
+                         hdr_items=header_items(F), history=list(log))
+                try:
+                    c['text'] = write_via(F, via, header, names, path)
+                    c['wexc'] = None
+                except Exception as e:  # noqa
+                    c['text'], c['wexc'] = None, [type(e).__name__, str(e)[:120]]
+                cases.append(c)
+                ctx.tally('history via', via)
+    # a long file replaced by a short one under the same name, and the other way round
+    big = CNF([[1 + i % 9, -(1 + (i * 2) % 9)] for i in range(3000)], description='long')
+    small = CNF([[1]], description='short')
+    for k, F in enumerate([big, small, big, small]):
+        c = dict(label='long and short formulas written in turn to one file name (%d)' % k, cls='history', F=F, n=F.number_of_variables(),
+                 clauses=[list(x) for x in F], labels=None, header=True, names=False, to_file=True, via='name (same file as the previous snapshots)',
+                 hdr_items=header_items(F), history=['write %s' % ('long' if F is big else 'short')])
+        c['text'], c['wexc'] = write_via(F, 'name', True, False, path), None
+        cases.append(c)
+    judge_cases(ctx, cnfgen, 'history', cases)
+    # the reader, called again and again: the verdict on a text does not depend on the texts read before
+    items = []
+    pool = []
+    for _ in range(10 if quick else 120):
+        lines, n, clauses = base_text(ctx.rng)
+        mu, lines2 = mutate(ctx.rng, lines, n, clauses)
+        t, _eol = join_lines(ctx.rng, lines2)
+        if latin1(t):
+            pool.append((t, mu))
+    for i, (t, mu) in enumerate(pool):
+        items.append((t, 'history:' + mu))
+        if i:
+            items.append(pool[ctx.rng.randrange(i)])          # an earlier text again
+    compare_texts(ctx, CNF, 'history-texts', items)
+    ctx.note('history: %.0f s' % (time.time() - t0))
+
+
 def run(ctx):
     cnfgen = import_impl()
     quick = ctx.tier == 'quick'
+    # the large cases first, as a corpus (notes/LARGE_STREAMS.md)
+    run_huge(ctx, cnfgen, quick)
+    run_thresholds(ctx, cnfgen, quick)
+    run_shapes(ctx, cnfgen, quick)
+    run_history(ctx, cnfgen, quick)
     run_primitives(ctx, quick)
     run_formulas(ctx, cnfgen, quick)
     run_texts(ctx, cnfgen, quick)
